@@ -176,3 +176,82 @@ func c08ValueWithError(r *Result) {
 		}
 	}
 }
+
+// c08SlowHandlers: a handler may take longer than the server's WriteTimeout (and ReadTimeout) - those bound the transport,
+// not the operation. A batch [quick success, SLOW item, quick failure with a reason] on a server with short timeouts must be
+// answered in full, each item with its own outcome, and the connection must go on serving the next request.
+func c08SlowHandlers(r *Result) {
+	const T = 100 * time.Millisecond
+	for _, c := range []struct {
+		rt, wt time.Duration
+		slow   string
+	}{{0, T, "success"}, {T, T, "error"}, {4 * T, T, "success"}, {0, T, "panic"}} {
+		key := fmt.Sprintf("handler taking %v on a server with ReadTimeout=%v WriteTimeout=%v; the slow item ends in %s", 4*T, c.rt, c.wt, c.slow)
+		crumb("C08 scenario: " + key)
+		r.eval(key, true)
+		s := &kmip.Server{ReadTimeout: c.rt, WriteTimeout: c.wt}
+		s.Handle(kmip.OPERATION_ACTIVATE, func(ctx *kmip.RequestContext, item *kmip.RequestBatchItem) (interface{}, error) {
+			return kmip.ActivateResponse{UniqueIdentifier: "ok"}, nil
+		})
+		s.Handle(kmip.OPERATION_REVOKE, func(ctx *kmip.RequestContext, item *kmip.RequestBatchItem) (interface{}, error) {
+			time.Sleep(4 * T)
+			switch c.slow {
+			case "error":
+				return nil, reasonErr{"late", kmip.RESULT_REASON_PERMISSION_DENIED}
+			case "panic":
+				panic("late")
+			}
+			return kmip.RevokeResponse{UniqueIdentifier: "slow"}, nil
+		})
+		s.Handle(kmip.OPERATION_DESTROY, func(ctx *kmip.RequestContext, item *kmip.RequestBatchItem) (interface{}, error) {
+			return nil, reasonErr{"nope", kmip.RESULT_REASON_ITEM_NOT_FOUND}
+		})
+		sc, cc := rec.Pipe()
+		l := rec.NewListener()
+		l.Push(rec.AcceptStep{Conn: rec.NewConn(sc, 1)})
+		init := make(chan struct{})
+		ret := make(chan error, 1)
+		go func() { ret <- s.Serve(l, init) }()
+		<-init
+		_ = cc.SetDeadline(time.Now().Add(5 * time.Second))
+		enc, dec := kmip.NewEncoder(cc), kmip.NewDecoder(cc)
+		req := kmip.Request{Header: kmip.RequestHeader{Version: kmip.ProtocolVersion{Major: 1, Minor: 4}, BatchCount: 3},
+			BatchItems: []kmip.RequestBatchItem{
+				{Operation: kmip.OPERATION_ACTIVATE, UniqueID: []byte{1}, RequestPayload: kmip.ActivateRequest{UniqueIdentifier: "a"}},
+				{Operation: kmip.OPERATION_REVOKE, UniqueID: []byte{2}, RequestPayload: kmip.RevokeRequest{UniqueIdentifier: "b", RevocationReason: kmip.RevocationReason{RevocationReasonCode: 1}}},
+				{Operation: kmip.OPERATION_DESTROY, UniqueID: []byte{3}, RequestPayload: kmip.DestroyRequest{UniqueIdentifier: "c"}},
+			}}
+		obs := ""
+		for round := 0; round < 2; round++ {
+			var resp kmip.Response
+			err := enc.Encode(&req)
+			if err == nil {
+				err = dec.Decode(&resp)
+			}
+			if err != nil {
+				obs += fmt.Sprintf("request %d: no response (%v) ", round+1, err)
+				break
+			}
+			for _, it := range resp.BatchItems {
+				obs += fmt.Sprintf("[%x status=%d reason=%d payload=%T] ", it.UniqueID, uint32(it.ResultStatus), uint32(it.ResultReason), it.ResponsePayload)
+			}
+		}
+		mid := fmt.Sprintf("[02 status=0 reason=0 payload=kmip.RevokeResponse] ")
+		switch c.slow {
+		case "error":
+			mid = fmt.Sprintf("[02 status=1 reason=%d payload=<nil>] ", uint32(kmip.RESULT_REASON_PERMISSION_DENIED))
+		case "panic":
+			mid = fmt.Sprintf("[02 status=1 reason=%d payload=<nil>] ", uint32(kmip.RESULT_REASON_GENERAL_FAILURE))
+		}
+		one := "[01 status=0 reason=0 payload=kmip.ActivateResponse] " + mid + fmt.Sprintf("[03 status=1 reason=%d payload=<nil>] ", uint32(kmip.RESULT_REASON_ITEM_NOT_FOUND))
+		if obs != one+one {
+			r.find(Finding{Kind: "violation", What: "a batch with a slow handler was not answered item by item (the time a handler takes must not count against the transport's timeouts)", Input: key, Expect: one + one, Actual: obs})
+		}
+		cc.Close()
+		ctx, cancel := context.WithTimeout(context.Background(), 5*time.Second)
+		_ = s.Shutdown(ctx)
+		cancel()
+		<-ret
+		r.Stats["slow-handler-scenarios"]++
+	}
+}
